@@ -594,6 +594,37 @@ func (run *c01Run) options(j int, st state.SyncState, outs []c01Out) []c01Option
 				return []c01Out{mut(rebuild(shifted(F)))}
 			})
 		}
+		// more points than T+1: the extra coefficients come from delta(x) = prod over ALL
+		// honest receivers (x - f), so every honest member's share check would pass
+		if len(honest) > cfg.T {
+			add("tooManyPointsValidForAllHonest", func(o []c01Out) []c01Out {
+				coeff := []*big.Int{big.NewInt(1)}
+				for _, f := range honest {
+					next := make([]*big.Int, len(coeff)+1)
+					for i := range next {
+						next[i] = big.NewInt(0)
+					}
+					for i, c := range coeff {
+						next[i+1].Add(next[i+1], c)
+						next[i].Sub(next[i], new(big.Int).Mul(c, big.NewInt(int64(f))))
+					}
+					coeff = next
+				}
+				p := append([]*bn256.G2{}, orig.publicKeySharePoints...)
+				for k := 0; k < len(coeff); k++ {
+					d := new(big.Int).Mod(coeff[k], bn256.Order)
+					dp := new(bn256.G2).ScalarBaseMult(d)
+					if k < len(p) {
+						if d.Sign() != 0 {
+							p[k] = new(bn256.G2).Add(p[k], dp)
+						}
+					} else {
+						p = append(p, dp)
+					}
+				}
+				return []c01Out{mut(rebuild(p))}
+			})
+		}
 		add("dupPointsHonestThenBad", func(o []c01Out) []c01Out {
 			return []c01Out{o[0], mut(rebuild(shifted(honest[:1])))}
 		})
